@@ -347,9 +347,14 @@ void exec(Run &run)
                     threw = true;
                 }
                 simalloc::fail_after(0);
+                // Whether the af-th allocation exists at all depends on the
+                // capacity the library's cache vector has kept from earlier
+                // runs of this process, which is not part of the plan: the
+                // event log says only that the fault was armed, so that the
+                // trace of a run stays a function of its plan.
+                run.ev("gen " + std::to_string(limit) + " with allocation fault armed");
                 if (threw) {
                     run.fault("allocation_failed_inside_generate_primes");
-                    run.ev("gen " + std::to_string(limit) + " -> bad_alloc");
                     on_cache_cleared(w); // the model knows nothing about the cache now
                     continue;
                 }
@@ -361,9 +366,10 @@ void exec(Run &run)
                 run.probe("gen_crosses_segment_boundary");
                 boundary_gens++;
             }
-            run.ev("gen " + std::to_string(limit) + " -> n="
-                   + std::to_string(v.size()) + " last="
-                   + (v.empty() ? std::string("-") : std::to_string(v.back())));
+            if (!af)
+                run.ev("gen " + std::to_string(limit) + " -> n="
+                       + std::to_string(v.size()) + " last="
+                       + (v.empty() ? std::string("-") : std::to_string(v.back())));
             if (v.size() != want
                 || !std::equal(v.begin(), v.end(), REF.begin())) {
                 // classify: duplicate / missing / extra / order
@@ -443,9 +449,12 @@ void exec(Run &run)
                     }
                     simalloc::fail_after(0);
                     if (threw) {
-                        // the extension failed before the iterator advanced
+                        // the extension failed before the iterator advanced:
+                        // the same step is asked for again, without a fault
+                        // (so the values logged do not depend on whether the
+                        // fault found an allocation to fail, see "gen")
                         run.fault("allocation_failed_inside_next_prime");
-                        continue;
+                        v = s.it->next_prime();
                     }
                 } else
                     v = s.it->next_prime();
